@@ -70,6 +70,18 @@ func (c *Cfg) Op(class string, line string, implAnswer string) {
 	c.nOps++
 }
 
+// OpTag is Op with a known-finding class tag: when the implementation's answer for this
+// case disagrees with the model, the failing input is reported under that class.
+func (c *Cfg) OpTag(class, tag, line, implAnswer string) {
+	if tag != "" {
+		class = class + ":" + tag
+	}
+	c.Op(class, line, implAnswer)
+}
+
+// Trace counts one implementation trace/history validated against the model.
+func (c *Cfg) Trace() { c.Count("traces") }
+
 // Direct records the verdict of a property predicate evaluated on the implementation
 // alone. class names the failure class (used for known findings).
 func (c *Cfg) Direct(ok bool, class string, what string, replay any) {
